@@ -637,6 +637,49 @@ fn verif_replay_c16_battery() {
 """
 
 
+BATTERY += r"""
+// two connections of one process with different options: each StartOk carries its own connection's values
+fn info_session(info: Option<&'static str>) -> Option<String> {
+    let l = std::net::TcpListener::bind("127.0.0.1:0").unwrap();
+    let port = l.local_addr().unwrap().port();
+    let server = std::thread::spawn(move || -> Option<String> {
+        let (mut s, _) = l.accept().unwrap();
+        s.set_read_timeout(Some(std::time::Duration::from_millis(1500))).unwrap();
+        let mut hdr = [0u8; 8]; s.read_exact(&mut hdr).unwrap();
+        s.write_all(&frame_bytes(&start_frame())).unwrap();
+        let seen = match read_frame(&mut s) {
+            Some(AMQPFrame::Method(0, AMQPClass::Connection(connection::AMQPMethod::StartOk(ok)))) => match ok.client_properties.get("information") {
+                Some(amq_protocol::types::AMQPValue::LongString(v)) => Some(v.to_string()), _ => None },
+            _ => Some("no-start-ok".to_string()) };
+        s.write_all(&frame_bytes(&AMQPFrame::Method(0, AMQPClass::Connection(connection::AMQPMethod::Tune(connection::Tune { channel_max: 10, frame_max: 8192, heartbeat: 0 }))))).unwrap();
+        let _ = read_frame(&mut s); let _ = read_frame(&mut s);
+        s.write_all(&frame_bytes(&AMQPFrame::Method(0, AMQPClass::Connection(connection::AMQPMethod::OpenOk(connection::OpenOk { known_hosts: "".into() }))))).unwrap();
+        let _ = read_frame(&mut s);
+        let _ = s.write_all(&frame_bytes(&AMQPFrame::Method(0, AMQPClass::Connection(connection::AMQPMethod::CloseOk(connection::CloseOk {})))));
+        seen
+    });
+    let stream = mio::net::TcpStream::connect(&format!("127.0.0.1:{}", port).parse().unwrap()).unwrap();
+    let opts = crate::ConnectionOptions::<crate::Auth>::default().information(info.map(|s| s.to_string()));
+    if let Ok(c) = crate::Connection::insecure_open_stream(stream, opts, crate::ConnectionTuning::default()) { let _ = c.close(); }
+    server.join().unwrap_or(Some("broker-panicked".to_string()))
+}
+#[test]
+fn verif_replay_c16_two_connections() {
+    let mut bad: Vec<String> = Vec::new();
+    for (i, info) in [Some("first-app"), Some("second-app"), None, Some("fourth-app")].iter().enumerate() {
+        let (tx, rx) = std::sync::mpsc::channel();
+        let info = *info;
+        std::thread::spawn(move || { let _ = tx.send(info_session(info)); });
+        match rx.recv_timeout(std::time::Duration::from_secs(10)) {
+            Ok(seen) => if seen.as_deref() != info { bad.push(format!("connection{}:information_sent={:?}:configured={:?}", i, seen, info)); },
+            Err(_) => bad.push(format!("connection{}:HANG", i)),
+        }
+    }
+    if bad.is_empty() { println!("VERIF-REPLAY-OK"); } else { println!("VERIF-REPLAY-VIOLATION handshake-behaviour {}", bad.join(";").replace(' ', "_")); }
+}
+"""
+
+
 def wait_mapping(ctx, prog, viol):
     """IoLoop::wait_for_amqp_handshake: success only when the I/O thread reported the handshake done"""
     def join_stub(ex, st, fn, argv):
